@@ -114,6 +114,10 @@ def contracts():
             assert(exists|n: &str| n@ == n_view && #[trigger] data_builder.ensures((n, url), Ok(body))); //@C04.body_built_from_stored_nonce_and_url,C08.retransmission_rebuilt_with_newest_nonce
             w.net.built = Some((n_view, url@, body@));
         }"""),
+          ("before_stmt", "acme_err.is_recoverable", 1, """
+                proof {
+                    assert(json_spec::<HttpApiError>(w.net.last_body) == Some(api_err));
+                }"""),
           ])
     c["post_jose"] = FnSpec(ret="r", ghost=True, sig=c["post"].sig)
     # polling (macro-expanded)
